@@ -66,9 +66,28 @@ namespace occa {
   }
 
   memoryPool& memoryPool::swap(memoryPool &m) {
+    if (modeMemoryPool == m.modeMemoryPool) {
+      return *this;
+    }
     modeMemoryPool_t *modeMemoryPool_ = modeMemoryPool;
-    modeMemoryPool   = m.modeMemoryPool;
+    modeMemoryPool_t *otherModeMemoryPool = m.modeMemoryPool;
+
+    // The reference rings have to follow the pointers:
+    // each handle leaves the ring of its old object and joins the ring of its new one
+    if (modeMemoryPool_) {
+      modeMemoryPool_->removeMemoryPoolRef(this);
+    }
+    if (otherModeMemoryPool) {
+      otherModeMemoryPool->removeMemoryPoolRef(&m);
+    }
+    modeMemoryPool   = otherModeMemoryPool;
     m.modeMemoryPool = modeMemoryPool_;
+    if (modeMemoryPool) {
+      modeMemoryPool->addMemoryPoolRef(this);
+    }
+    if (m.modeMemoryPool) {
+      m.modeMemoryPool->addMemoryPoolRef(&m);
+    }
     return *this;
   }
 
